@@ -694,7 +694,9 @@ fn main() {
     asys::world::set_checker(asys::oracle::check_c17_system);
     if let Some(r) = ctx.replay_request() {
         let d = &r["detail"];
-        if r["leg"].as_str().unwrap_or("").starts_with("as-") {
+        if r["leg"].as_str().unwrap_or("").starts_with("dl-") {
+            c07::timeouts_replay(&ctx, &r);
+        } else if r["leg"].as_str().unwrap_or("").starts_with("as-") {
             asys::grid::replay(&ctx, &r);
         } else if r["leg"] == "seq" {
             let n = d["parties"].as_u64().unwrap() as u8;
@@ -718,7 +720,8 @@ fn main() {
     seq_leg(&ctx, 3, d3);
     loom_leg(&ctx);
     as_timeouts_leg(&ctx);
-    ctx.assume("system leg: the clock moves only while the runtime has nothing to do (Step::Wait) and by full ticks at quiescence; the HTTP task never receives a request");
+    c07::run_timeouts_leg(&ctx);
+    ctx.assume("system legs: the clock moves by scripted partial advances (agent runtime: also while the runtime has work pending, i.e. it was not scheduled for a while; downlink runtime: only while it has nothing to do) and by full ticks at quiescence; the HTTP task never receives a request");
     ctx.assume("loom models the C11 memory orderings of the AtomicU8; the AtomicWaker of the futures crate is replaced by a mutex-protected waker cell (its register/wake contract, not its implementation)");
     ctx.assume("Voter is !Sync: each voter is used by one thread (Cell<bool> stays a plain cell)");
     ctx.finish(
